@@ -156,6 +156,58 @@ func init() {
 			"event time plus between/beyond; library assemblies (ideal, wt, wb, wt+wb, banked, full virtual-memory stack) cut likewise. " +
 			"Non-trivial: events were handled both before and after the cut (scripts: and the run has a same-instant primary/secondary pair). " +
 			"Distinct = distinct input hash.",
-		Gen: gen, Run: run,
+		Gen: gen, Run: run, Shrink: shrink,
 	})
+}
+
+// shrink proposes smaller failing-input candidates: library cases drop parts of
+// the workload (same cut), scripted cases drop initial events, rows and rules.
+func shrink(raw json.RawMessage) []json.RawMessage {
+	var k kindOnly
+	if hx.UJ(raw, &k) != nil {
+		return nil
+	}
+	var out []json.RawMessage
+	switch k.Kind {
+	case "lib":
+		var in LibInput
+		if hx.UJ(raw, &in) != nil {
+			return nil
+		}
+		for _, c := range asm.ShrinkConfigs(in.Cfg) {
+			out = append(out, hx.J(LibInput{Kind: "lib", Cfg: c, B: in.B}))
+		}
+	case "script":
+		var in ScriptInput
+		if hx.UJ(raw, &in) != nil {
+			return nil
+		}
+		for i := range in.Inits {
+			if len(in.Inits) > 1 {
+				c := in
+				c.Inits = append(append([]Init(nil), in.Inits[:i]...), in.Inits[i+1:]...)
+				out = append(out, hx.J(c))
+			}
+			if in.Inits[i].Budget > 0 {
+				c := in
+				c.Inits = append([]Init(nil), in.Inits...)
+				c.Inits[i].Budget--
+				out = append(out, hx.J(c))
+			}
+		}
+		for h := range in.Script {
+			for r := range in.Script[h] {
+				if len(in.Script[h][r]) > 0 {
+					c := in
+					c.Script = make([][][]Rule, len(in.Script))
+					for a := range in.Script {
+						c.Script[a] = append([][]Rule(nil), in.Script[a]...)
+					}
+					c.Script[h][r] = in.Script[h][r][:len(in.Script[h][r])-1]
+					out = append(out, hx.J(c))
+				}
+			}
+		}
+	}
+	return out
 }
